@@ -34,14 +34,17 @@ Fixpoint blank_at (skip : list nat) (i : nat) (rs : list (list Z)) : list (list 
 Definition blank (skip : list nat) (o : obs) : obs :=
   match o with OStarted p q r => OStarted p q (blank_at skip O r) | _ => o end.
 
+(* [drops]: for every partition removal of the scenario, whether the directory was seen to go before the index without
+   the record was in place (the order of the two file-system events, from one inotify queue) *)
 Inductive case :=
-| KScenario (np : nat) (lo hi : Z) (sessions : list session) (observed : list obs) (skip : list nat).
+| KScenario (np : nat) (lo hi : Z) (sessions : list session) (observed : list obs) (skip : list nat) (drops : list bool).
 
 Definition check (c : case) : bool :=
   match c with
-  | KScenario np lo hi ss observed skip =>
+  | KScenario np lo hi ss observed skip drops =>
       list_eqb obs_eqb (map (fun o => blank skip (canon o)) (run_sessions code_fix np lo hi empty_disk ss))
                        (map (blank skip) observed)
+      && forallb (Bool.eqb (drop_data_first code_fix)) drops
   end.
 
 Definition mismatches (l : list case) : list nat := mismatches_of check l.
